@@ -178,13 +178,16 @@ def mutate(rng, sch, e):
     return e
 
 
+def rng_free_choice(i):
+    return "any" if i % 2 == 0 else "all"
+
+
 def matrices(sch):
     """the finite matrices: (left type x operator x literal kind), (container x index kind)"""
     out = []
     for fi, (name, t, opt) in enumerate(sch.fields):
-        for idx in [(), (("a", 0),), (("k", b"a"),), ("each",), (("a", 0), ("a", 0)), (("k", b"a"), ("a", 1)),
-                    ("each", "each"), (("a", 0), "each"), ("each", ("k", b"k1")), (("k", b"a"), ("k", b"b"), ("a", 0)),
-                    ("each", "each", "each")]:
+        shapes = [idx for n in range(0, 4) for idx in itertools.product([("a", 0), ("k", b"a"), "each"], repeat=n)]
+        for idx in shapes:
             ft = lg.ty_index(t, idx)
             for op in OPS_ALL:
                 if op[0] == "inlist":
@@ -210,8 +213,9 @@ def matrices(sch):
                 out.append(typecheck_case(sch, ("ql", q, a)))
     # quantifier over index expressions
     for fi, (name, t, opt) in enumerate(sch.fields):
-        for idx in [(), (("a", 0),), ("each",), (("k", b"a"),)]:
-            out.append(typecheck_case(sch, ("qi", "any", ("field", fi) + idx)))
+        for n in range(0, 3):
+            for idx in itertools.product([("a", 0), ("k", b"a"), "each"], repeat=n):
+                out.append(typecheck_case(sch, ("qi", rng_free_choice(len(out)), ("field", fi) + tuple(idx))))
     # function signature x argument shape
     argpool = [("lit", ("i", 5)), ("lit", ("s", b"x")), ("lit", ("v4", 1)),
                ("ai", ("field", sch.field_index("str"))), ("ai", ("field", sch.field_index("num"))),
@@ -285,7 +289,7 @@ PROP = {
     "distribution": distribution,
     "exhaustive": True,
     "rule": "exhaustive finite matrices through the real parser vs the typing rules wt_*: every field (22 types incl. "
-            "containers to depth 3) x 11 index shapes x 12 operator/literal kinds; 8x8 operand-type pairs x 3 logical "
+            "containers to depth 3) x all 40 index sequences up to length 3 over {[0], [\"a\"], [*]} x 12 operator/literal kinds; 8x8 operand-type pairs x 3 logical "
             "operators; quantifier arguments; every library function x argument tuples of length 0..3 over a 15-argument "
             "pool; value expressions with/without [*]. Random: well-typed filters and 1-2-step mutants (operator, index "
             "kind, field, arity, argument kind/type, [*] position, operand type, quantifier) compared on accept/reject and, "
